@@ -58,6 +58,8 @@ def plan(tier, seed):
         specs.append({'name': 'move', 'index': k, 'n': [4, 8, 16, 2][k % 4]})
     for k in range(1 if tier == 'quick' else 6):
         specs.append({'name': 'slow', 'index': k})
+    for k in range(2 if tier == 'quick' else 24):
+        specs.append({'name': 'pure', 'index': k})
     nb = BATON_ROUNDS[tier]
     for part in range(8):
         specs.append({'name': 'baton', 'lo': part * nb // 8, 'hi': (part + 1) * nb // 8})
@@ -75,6 +77,10 @@ def run_shard(spec, tier, seed):
         from . import c20baton
         for k in range(spec['lo'], spec['hi']):
             c20baton.run_round(res, {'baton': True, 'round': k, 'seed': seed})
+        return res
+    if spec['name'] == 'pure':
+        from . import c20pure
+        c20pure.run(res, seed + spec['index'])
         return res
     if spec['name'] == 'slow':
         from . import c20slow
@@ -99,6 +105,10 @@ def replay(case):
     if case.get('baton'):
         from . import c20baton
         c20baton.run_round(res, case)
+        return res
+    if case.get('pure'):
+        from . import c20pure
+        c20pure.run(res, case.get('seed', 0))
         return res
     if case.get('slow'):
         from . import c20slow
